@@ -57,6 +57,13 @@ def sym_scalar(ob, kind, name='c'):
         s = SymScalar(v, 'int', kind)
         ob.describe(name, {'kind': kind, 'value': v})
         return s, Term.of(v)
+    if kind == 'np.uint8':
+        # an unsigned numpy scalar (0..255): its negation wraps around, so `x - c` must not be computed as `x + (-c)`
+        v = z3.Int(name)
+        ob.ex.assume(z3.And(v >= 0, v < 256))
+        s = SymScalar(v, 'int', kind)
+        ob.describe(name, {'kind': kind, 'value': v})
+        return s, Term.of(v)
     if kind in ('float', 'np.float64', 'np.float32'):
         v = z3.Real(name)
         s = SymScalar(v, 'float', kind)
